@@ -38,6 +38,26 @@ def check(ctx):
         progs.setdefault(c, "storage-free")
     for c in gen.hashing_programs(rng, bw, n, with_storage=True):
         progs.setdefault(c, "mixed")
+    # storage-free code that uses bytes which are NOT storage instructions of this EVM version in storage-like positions
+    # (0x5c / 0x5d are TLOAD / TSTORE in later versions, 0x49 / 0x4a, 0x0c-0x0f, 0x21-0x2f unassigned): key and value operands
+    # are in place, so a machine that gave them storage semantics would report slots
+    for _ in range(60 if ctx.quick else 800):
+        a = gen.Asm()
+        for _ in range(rng.randrange(1, 4)):
+            k = rng.choice([0, 1, 7, 2 ** 64 + 1])
+            b = rng.choice([0x5c, 0x5d, 0x5d, 0x49, 0x4a, 0x0c, 0x21, 0xa5, 0xb0, 0xf6])
+            if rng.random() < 0.4:       # a mapping-shaped key
+                a.op("CALLER").push(0).op("MSTORE").push(k).push(0x20).op("MSTORE").push(0x40).push(0).op("SHA3")
+            else:
+                a.push(k)
+            if b in (0x5d, 0x4a, 0xb0):
+                a.push(0x2a)
+                a.raw([0x90])
+            a.raw([b])
+            if rng.random() < 0.5:
+                a.op("POP")
+        a.push(0x20).push(0).op("RETURN")
+        progs.setdefault(a.assemble(), "storage-free")
     for _ in range(60 if ctx.quick else 800):
         vs = gen.random_vars(rng, rng.randrange(1, 6))
         progs.setdefault(gen.compile_layout(vs, rng), "idioms")
@@ -83,8 +103,14 @@ def check(ctx):
                 terms.append("(%s, %s)" % (vlib.coq_bytes(c), L.hexify("mk_c056case (%s) (%s) [%s] %s" % (v, a, pre, hs if hs.startswith("[") else "[]"))))
             # long programs (mutated real contracts): the model's run inside vm_compute is too slow for them; their
             # attribution is evaluated against the implementation's own states only
-            small_i = [i for i, c in enumerate(gkeys) if len(c) <= 1500]
-            big_i = [i for i, c in enumerate(gkeys) if len(c) > 1500]
+            is_big = lambda c: len(c) > 700 or progs.get(c) == "mutated-contract"
+            small_i = [i for i, c in enumerate(gkeys) if not is_big(c)]
+            big_i = [i for i, c in enumerate(gkeys) if is_big(c)]
+            # state dumps of real contracts can be megabytes; the quick tier evaluates the moderate ones only
+            cap = 250000 if ctx.quick else 3000000
+            skipped = [i for i in big_i if len(terms[i]) > cap]
+            big_i = [i for i in big_i if len(terms[i]) <= cap]
+            ctx.coverage["long_programs_not_evaluated_in_coq"] = ctx.coverage.get("long_programs_not_evaluated_in_coq", 0) + len(skipped)
             bs = vlib.run_cases(ctx, "attribution-" + gname, L.HEADER, [terms[i] for i in small_i],
                                 per_shard=min(60, max(1, len(small_i) // 32 + 1)), timeout=1800,
                                 fn="(fun t => c05m_code (fst t) (%s) (snd t))" % gen.coq_config(gcfg))
